@@ -22,10 +22,10 @@ TIERS = {
     'quick': {'workers': 8, 'cases': 750, 'timeout': 600},
     'thorough': {'workers': 16, 'cases': 7000, 'timeout': 3000},
 }
-REQUIRED_BUCKETS = ['tree:depth3+', 'tree:file-included-twice', 'tree:same-include-twice-in-one-text', 'tree:fanout2+', 'conflict:before-include', 'conflict:after-include', 'conflict:between-includes',
+REQUIRED_BUCKETS = ['search:package-moved-on-python-path', 'tree:depth3+', 'tree:file-included-twice', 'tree:same-include-twice-in-one-text', 'tree:fanout2+', 'conflict:before-include', 'conflict:after-include', 'conflict:between-includes',
                     'search:first-location-wins', 'search:later-location', 'search:reader-order-decides', 'search:memory-reader', 'search:absolute-name',
                     'search:package-slash', 'search:package-dot', 'missing:include', 'missing:top-level', 'imports:per-file', 'entry:parse_config_file',
-                    'entry:files_and_bindings', 'entry:parse_config-with-include', 'finalize:true', 'finalize:false', 'unknown:raises', 'unknown:skipped', 'unknown:skipped-by-list', 'unknown:in-included-file', 'unknown:raises-not-in-list',
+                    'entry:files_and_bindings', 'entry:parse_config-with-include', 'finalize:true', 'finalize:false', 'finalize:default', 'extra-bindings:none', 'extra-bindings:empty-list', 'extra-bindings:empty-string', 'extra-bindings:string', 'unknown:raises', 'unknown:skipped', 'unknown:skipped-by-list', 'unknown:in-included-file', 'unknown:raises-not-in-list',
                     'locations:3+', 'readers:2']
 ORACLE_COUNTERS = ['oracle_evals', 'trees_compared', 'flattened_compared']
 _S = {}
@@ -93,6 +93,9 @@ def gen_file(rng, fid, depth, maxdepth, state):
 
 def iter_cases(ctx, rng, n):
   for i in range(n):
+    if i % 50 == 31:
+      yield {'kind': 'package-moved', 'form': rng.choice(['slash', 'dot']), 'via': rng.choice(['parse_config_file', 'include']), 'end': rng.choice(['moved', 'removed'])}
+      continue
     state = {'count': 0, 'files': {}, 'twice': False, 'same_text_twice': False}
     state['files'][0] = None
     top = gen_file(rng, 0, 1, rng.choice([1, 2, 3, 4]), state)
@@ -112,7 +115,8 @@ def iter_cases(ctx, rng, n):
     yield {'files': {str(k): v for k, v in state['files'].items()}, 'nloc': nloc, 'nread': nread, 'place': {str(k): v for k, v in place.items()},
            'missing': missing, 'entry': rng.choice(['parse_config_file', 'files_and_bindings', 'parse_config-with-include']),
            'finalize': rng.random() < 0.5, 'unknown': rng.choice([None, None, 'raise', 'skip', 'skip-list', 'list-without-it']),
-           'unknown_in': str(rng.choice(sorted(state['files']))), 'twice': state['twice'], 'same_text_twice': state['same_text_twice']}
+           'unknown_in': str(rng.choice(sorted(state['files']))), 'twice': state['twice'], 'same_text_twice': state['same_text_twice'],
+           'extra': rng.choice(['list', 'list', 'none', 'empty-list', 'empty-string', 'string']), 'finalize_default': rng.random() < 0.3}
 
 
 class World:
@@ -261,9 +265,75 @@ def depth_of(case, fid='0'):
   return 1 + max([depth_of(case, str(st[1])) for st in f['stmts'] if st[0] == 'include'] or [0])
 
 
+def run_package_moved(ctx, case):
+  """Package-relative names resolve through the Python path as it is at that moment: the same name after the package moved / went away."""
+  import importlib
+  import gin
+  from gin import config as gc
+  gin.clear_config()
+  _S['mv'] = _S.get('mv', 0) + 1
+  pk = 'vfmv%d_%s' % (_S['mv'], ctx.uid)
+  roots = []
+  for tag in 'AB':
+    r = os.path.join(_S['root'], 'mv%d%s' % (_S['mv'], tag))
+    os.makedirs(os.path.join(r, pk, 'sub'))
+    for f in (os.path.join(r, pk, '__init__.py'), os.path.join(r, pk, 'sub', '__init__.py')):
+      open(f, 'w').close()
+    open(os.path.join(r, pk, 'sub', 'conf.gin'), 'w').write("c14f.a = 'copy-%s'\n" % tag)
+    roots.append(r)
+  name = '%s/sub/conf.gin' % pk if case['form'] == 'slash' else '%s.sub/conf.gin' % pk
+  ctx.bucket('search:package-moved-on-python-path')
+
+  def load():
+    gin.clear_config()
+    if case['via'] == 'include':
+      gin.parse_config("include '%s'\n" % name)
+    else:
+      gin.parse_config_file(name)
+    return gin.query_parameter('c14f.a')
+
+  def forget():
+    for m in [m for m in sys.modules if m == pk or m.startswith(pk + '.')]:
+      del sys.modules[m]
+    importlib.invalidate_caches()
+
+  try:
+    sys.path.insert(0, roots[0])
+    importlib.invalidate_caches()
+    ctx.check(load() == 'copy-A', 'package-relative-name-resolved-elsewhere', 'first resolution of %s' % name)
+    sys.path.remove(roots[0])
+    forget()
+    if case['end'] == 'moved':
+      sys.path.insert(0, roots[1])
+      try:
+        got = load()
+      except Exception as e:  # pylint: disable=broad-except
+        got = 'raised %r' % (e,)
+      ctx.check(got == 'copy-B', 'package-relative-name-resolved-elsewhere', 'the package %s now lives in another entry of the Python path: %s delivered %r, expected the copy there' % (pk, name, got))
+    else:
+      try:
+        got = load()
+        ctx.check(False, 'missing-file-not-IOError', 'the package %s is no longer on the Python path, yet %s was read (%r)' % (pk, name, got))
+      except IOError:
+        ctx.count('oracle_evals')
+        ctx.check(not snap.store_nonempty(gc), 'missing-file-store-not-prefix', 'store after the unreadable package-relative name: %r' % (snap.store_nonempty(gc),))
+      except Exception as e:  # pylint: disable=broad-except
+        ctx.check(False, 'missing-file-not-IOError', 'package gone: got %r' % (e,))
+    ctx.fp('package-moved', case['form'], case['via'], case['end'])
+  finally:
+    for r in roots:
+      if r in sys.path:
+        sys.path.remove(r)
+      shutil.rmtree(r, ignore_errors=True)
+    forget()
+    gin.clear_config()
+
+
 def run_case(ctx, case):
   import gin
   from gin import config as gc
+  if case.get('kind') == 'package-moved':
+    return run_package_moved(ctx, case)
   gin.clear_config()
   w = World(case)
   try:
@@ -356,7 +426,13 @@ def _run(ctx, case, w, gin, gc):
       ctx.bucket('finalize:true' if case['finalize'] else 'finalize:false')
       second = os.path.join(w.base, 'second_file.gin')
       open(second, 'w').write("c14f.a = 'second-file'\nc14f.c = 'second-file-c'\n")
-      res = gin.parse_config_files_and_bindings([top, second], ["c14f.c = 'extra-binding'"], finalize_config=case['finalize'], skip_unknown=skip)
+      extra = {'list': ["c14f.c = 'extra-binding'"], 'none': None, 'empty-list': [], 'empty-string': '', 'string': "c14f.b = 'overridden-next-line'\nc14f.c = 'extra-binding'\n"}[case.get('extra', 'list')]
+      ctx.bucket('extra-bindings:' + case.get('extra', 'list'))
+      if case.get('finalize_default') and case['finalize']:
+        ctx.bucket('finalize:default')
+        res = gin.parse_config_files_and_bindings([top, second], extra, skip_unknown=skip)       # finalize_config defaults to True
+      else:
+        res = gin.parse_config_files_and_bindings([top, second], extra, finalize_config=case['finalize'], skip_unknown=skip)
     else:
       inc, imp = gin.parse_config("include '%s'\n" % top, skip_unknown=skip)
       res = inc
@@ -389,7 +465,12 @@ def _run(ctx, case, w, gin, gc):
     expected_store = dict(expected_store)
     d = dict(expected_store.get(('', 'c14.c14f'), {}))
     d['a'] = canon('second-file')       # files in the order given ...
-    d['c'] = canon('extra-binding')     # ... then the extra bindings
+    if case.get('extra', 'list') in ('list', 'string'):
+      d['c'] = canon('extra-binding')     # ... then the extra bindings
+    else:
+      d['c'] = canon('second-file-c')     # no extra bindings given (None / [] / ''): the files alone, and still finalized
+    if case.get('extra') == 'string':
+      d['b'] = canon('overridden-next-line')
     expected_store[('', 'c14.c14f')] = d
     ctx.check(gin.config_is_locked() == bool(case['finalize']), 'finalize-flag-ignored', 'finalize_config=%s but locked=%s' % (case['finalize'], gin.config_is_locked()))
   ctx.check(got_store == expected_store, 'store-differs-from-flattened-text',
